@@ -43,7 +43,7 @@ func corpusDirs() []string {
 
 // FaultWitness is a self-contained fault case.
 type FaultWitness struct {
-	Part    string    `json:"part"` // "fault"
+	Part    string    `json:"part"`    // "fault"
 	K       int       `json:"context"` // context number: names the tree directory, which is part of every indexed path
 	Spec    FaultSpec `json:"spec"`
 	Variant string    `json:"variant"` // gz-prefix, gz-byte, pl-prefix, pl-byte, crash-*
@@ -94,7 +94,7 @@ func genFaultSpec(seed int64, k, shrink int) FaultSpec {
 	smallFonts()
 	var sp FaultSpec
 	t := newTreeModel([]string{"r0"})
-	add := func(o Op) { t.record(o); sp.Tree = append(sp.Tree, o) }
+	add := func(o Op) { o.DirTick = t.next(); t.record(o); sp.Tree = append(sp.Tree, o) }
 	nFonts := 1 + r.Intn(10)
 	if k%8 == 7 {
 		nFonts = 0 // empty index / junk only
@@ -168,6 +168,7 @@ func buildFaultCtx(k int, sp FaultSpec, base string, build bool) (*faultCtx, err
 		if err := os.MkdirAll(c.dirs[0], 0o755); err != nil {
 			return nil, err
 		}
+		os.Chtimes(c.dirs[0], tickTime(0), tickTime(0))
 		for _, o := range sp.Tree {
 			if err := o.apply(base); err != nil {
 				return nil, fmt.Errorf("tree op %v: %w", o, err)
